@@ -147,6 +147,12 @@ pub fn check_c02(c: &Case, acc: &mut Acc) -> Check {
     if let Some(i) = view.first_issue(&["bytes:", "fmt:content-range", "fmt:206-without-content-range"]) {
         return fail(format!("{}:{}", i.sig, kind_name(&view)), format!("{}; {}", i.msg, ctx(c)));
     }
+    if let Kind::Multi { ranges: None, truncated: false, .. } = &view.kind {
+        // drained to the end and not a readable multipart/byteranges document: the bytes the part
+        // headers denote cannot be told from the headers
+        let why = view.first_issue(&["multipart:", "fmt:"]).map(|i| i.msg.clone()).unwrap_or_default();
+        return fail("bytes:multipart-unreadable:multipart", format!("the multipart body cannot be parsed ({why}); {}", ctx(c)));
+    }
     // Statuses that name no entity bytes must not contain any: their bodies are fixed texts or
     // empty, so any body longer than 64 bytes or equal to entity content of that length is suspect.
     if matches!(view.kind, Kind::Other | Kind::Unsat { .. }) {
